@@ -13,6 +13,7 @@ pub mod c10;
 pub mod c11;
 pub mod c15;
 pub mod c12;
+pub mod c14;
 
 use subjects::Registry;
 use vcore::{Ctx, Tier};
@@ -90,6 +91,7 @@ pub fn main_with(reg: Registry, extra: serde_json::Map<String, serde_json::Value
         "C10" => c10::run(&ctx, &reg),
         "C11" => c11::run(&ctx, &reg),
         "C12" => c12::run(&ctx, &reg),
+        "C14" => c14::run(&ctx, &reg),
         "C15" => c15::run(&ctx, &reg),
         other => {
             println!("INCONCLUSIVE property={other} reason=no driver for this property in this binary");
